@@ -4,6 +4,7 @@ C definitions (the glue takes untyped nb::ndarray<> and raw-casts .data())."""
 from __future__ import annotations
 
 import ast
+import os
 
 import sympy as sp
 import re
@@ -187,6 +188,12 @@ def run(rep: core.Report, an, tus):
                 kept = [x for x in srcs if x.contig is None and "keeps the caller's memory order" in x.why]
                 if kept and _multi_dim(an, g, p):
                     nonc = kept
+                else:
+                    # a 1-D argument: a copy (np.array) of a strided 1-D array is contiguous, a conditional copy
+                    # (np.asarray: the caller's array itself when the dtype already matches) is not
+                    kept1 = [x for x in kept if "np.asarray(" in x.why]
+                    if kept1:
+                        nonc = kept1
             unknown = [x for x in srcs if x.dtype == "?" or x.dtype.startswith("?")]
             for u in unknown[:1]:
                 rep.unknown(f"{s.file}::{s.qualname} phonoc.{s.entry} {p.name} <- {core.norm(core.src(a), 40)}: {u.why[:90]}")
